@@ -100,7 +100,12 @@ class Svh:
             return self._crashed(msg)
         lines = []
         import select
-        deadline = time.time() + self.timeout
+        # the limit is stretched by the machine's load (a busy machine must not turn a slow answer into an alarm)
+        try:
+            stretch = max(1.0, 2.0 * os.getloadavg()[0] / max(1, NPROC))
+        except OSError:
+            stretch = 1.0
+        deadline = time.time() + self.timeout * stretch
         buf = b''
         fd = self.p.stdout.fileno()
         while True:
